@@ -305,8 +305,8 @@ def gen_random(rng, sb, mmp_ok):
     atoms = gen_field(rng, sb)
     if rng.random() < 0.2:
         more = gen_field(rng, sb)
-        kinds = {a["k"] for a in atoms}
-        if not (kinds & {a["k"] for a in more}):
+        kinds = {"m" if a["k"] == "r" else a["k"] for a in atoms}      # -m and -r set the same field
+        if not (kinds & {"m" if a["k"] == "r" else a["k"] for a in more}):
             atoms += more
     return atoms
 
@@ -457,6 +457,7 @@ class Seq:
         self.mutated = False
         self.dig0 = None
         self.dig = None
+        self.t0 = time.time()
 
     # ---- helpers
     def digest(self):
@@ -510,6 +511,7 @@ class Seq:
     def invoke(self, atoms, retry_ok=True, is_retry=False, core=False):
         label = M.op_label(atoms)
         argv = M.op_argv(atoms)
+        t_start = time.time()
         B = M.read_sb(self.img)
         sha_b = run.sha256_file(self.img)
         r = run.run([self.b.tool("tune2fs")] + argv + [self.img], env=self.env, timeout=240,
@@ -521,6 +523,7 @@ class Seq:
         st = {"label": label, "argv": argv, "atoms": [M.atom_label(a) for a in atoms], "rc": r.rc,
               "cls": None, "structural": False, "asked": None, "retry": is_retry, "core": core,
               "out": out[-600:]}
+        st["t_tune2fs"] = round(time.time() - t_start, 2)
         self.steps.append(st)
         self.ops.append({"atoms": atoms})
         if r.timed_out:
@@ -720,7 +723,11 @@ class Seq:
                     atoms = gen_field(rng, sb)
                 else:
                     atoms = resolve_step(step, rng, sb, d["mmp"])
+                t1 = time.time()
+                n0 = len(self.steps)
                 self.invoke(atoms, core=bool(d.get("script")) and step[0] not in ("random", "random-field"))
+                if len(self.steps) > n0:
+                    self.steps[n0]["t_total"] = round(time.time() - t1, 2)
         if not self.broken and not self.mutated and not self.viol:
             try:
                 td = T.diff_digests(self.dig0, self.digest())
@@ -736,6 +743,7 @@ class Seq:
         return {"idx": self.desc["idx"], "image": self.desc["image"], "forced": self.desc.get("forced"),
                 "steps": self.steps, "ops": self.ops, "viol": self.viol, "harness": self.harness,
                 "inconclusive": self.inconclusive, "mutated": self.mutated,
+                "wall": round(time.time() - self.t0, 1),
                 "ea_inodes_after_mutation": getattr(self, "ea_inodes_after_mutation", None)}
 
 
@@ -870,7 +878,23 @@ def main(tier, seed, replay=None, scale=1.0):
         else:
             n = max(4, int(BUDGET[tier] * scale))
             seqs = plan_sequences(seed, n, infos, tier)
-        results = run.pmap(w_seq, [(b.root, basedir, wroot, d) for d in seqs])
+        t_base = time.time() - rep.t0
+        # longest first (MMP waits, big directories), so that the pool does not idle at the end
+        def cost(d):
+            i = infos[d["image"]]
+            return (2 if d.get("mmp") else 0, i["kinds"].get("inode", 0) * (d.get("len") or 5))
+        order = sorted(range(len(seqs)), key=lambda k: cost(seqs[k]), reverse=True)
+        got = run.pmap(w_seq, [(b.root, basedir, wroot, seqs[k]) for k in order])
+        results = [None] * len(seqs)
+        for k, r in zip(order, got):
+            results[k] = r
+        rep.extra["timing"] = {"base_images_s": round(t_base, 1),
+                               "sequences_s": round(time.time() - rep.t0 - t_base, 1),
+                               "slowest_sequences": sorted(((r.get("wall", 0), r["image"], str(r["forced"]))
+                                                            for r in results), reverse=True)[:5]}
+        slow = sorted((r for r in results if r["forced"] != "mmp"), key=lambda r: -r.get("wall", 0))[:2]
+        rep.extra["timing"]["slowest_steps"] = [[(st["label"], st.get("t_tune2fs"), st.get("t_total"))
+                                                 for st in r["steps"]] for r in slow]
         for res in results:
             absorb(rep, res, stats)
         rep.extra["invocations_per_option"] = {k: [v["accepted"], v["refused"]] for k, v in
